@@ -66,7 +66,10 @@ func (r *Result) Check(cond bool, rule, key, pos, ctx, okMsg, badMsg string) boo
 // Collapse merges obligations that are identical up to the context: one entry per
 // (rule, construct, outcome, detail), with the contexts listed.
 func Collapse(obls []Obligation) []Obligation {
-	type key struct{ rule, key, pos, detail, config string; out Outcome }
+	type key struct {
+		rule, key, pos, detail, config string
+		out                            Outcome
+	}
 	idx := map[key]int{}
 	var out []Obligation
 	ctxs := map[int][]string{}
